@@ -7,7 +7,134 @@ use crate::fq::{self, Tok};
 use crate::props::c05::{exhaustive_schedules, gen_sched, sched_outcome, SchedCase};
 use crate::props::parse_case;
 
+use serde::{Deserialize, Serialize};
 use serde_json::{json, Value};
+
+// --------------------------------------------------------------------------------------------
+// fairness observed on real sockets (sim): k peers, each with a backlog of complete messages
+
+#[derive(Debug, Clone, Serialize, Deserialize, PartialEq, Eq, Hash)]
+pub struct FairSockCase {
+    pub kind: crate::sim::Kind,
+    /// backlog per peer (messages), one entry per peer
+    pub backlog: Vec<usize>,
+    /// second-frame length of every message
+    pub size: usize,
+    /// peers join and deliver in this order (a permutation seed)
+    pub order: u32,
+}
+
+pub fn fair_sock_outcome(c: &FairSockCase) -> Outcome {
+    use crate::fail;
+    use crate::props::c05::wire_and_expect;
+    use crate::sim::{run_sim, Kind, Out, Sim};
+    let mut o = Outcome::new(hash_of(c));
+    o.nontrivial = c.backlog.iter().filter(|b| **b >= 2).count() >= 2;
+    o.class("fairness-on-a-real-socket");
+    let c2 = c.clone();
+    let (r, panics) = capture_panics(|| {
+        run_sim(async move {
+            let c = c2;
+            let kind = c.kind;
+            let who = kind.name();
+            let mut f: Vec<Failure> = vec![];
+            let mut sim = Sim::new();
+            let s = sim.socket(kind, None);
+            let k = c.backlog.len();
+            let mut links = vec![];
+            for _ in 0..k {
+                match crate::simx::attach_raw(&mut sim, s, None).await {
+                    Ok((l, _)) => links.push(l),
+                    Err(e) => {
+                        fail!(f, format!("C06/{}/setup", who), "{}", e);
+                        return f;
+                    }
+                }
+            }
+            // every peer's whole backlog is on the wire before the first recv, busiest first or
+            // last depending on `order`
+            let mut idx: Vec<usize> = (0..k).collect();
+            if c.order % 2 == 1 {
+                idx.reverse();
+            }
+            idx.rotate_left((c.order as usize / 2) % k.max(1));
+            for j in idx {
+                for q in 0..c.backlog[j] {
+                    let (w, _) = wire_and_expect(kind, j, q, &[8, c.size], false);
+                    links[j].raw_send_now(&w);
+                }
+            }
+            let total: usize = c.backlog.iter().sum();
+            let mut left = c.backlog.clone();
+            let mut waiting = vec![0usize; k]; // deliveries from others since this peer last got a turn
+            for step in 0..total + 4 {
+                let r = sim.recv(s);
+                match sim.run(r).await {
+                    Ok(Some(Out::Recv(Ok(m)))) => {
+                        let tagf = m.get(if kind == Kind::Router { 1 } else { 0 });
+                        let j = tagf.and_then(|t| {
+                            let t = if kind == Kind::XPub { t.get(1..)? } else { &t[..] };
+                            if !t.starts_with(b"p") {
+                                return None;
+                            }
+                            let end = t.iter().position(|c| *c == b'-')?;
+                            std::str::from_utf8(&t[1..end]).ok()?.parse::<usize>().ok()
+                        });
+                        let Some(j) = j.filter(|j| *j < k) else {
+                            fail!(f, format!("C06/{}/unattributable-message", who), "{:?}", m.iter().map(|x| x.len()).collect::<Vec<_>>());
+                            return f;
+                        };
+                        left[j] = left[j].saturating_sub(1);
+                        waiting[j] = 0;
+                        for i in 0..k {
+                            if i != j && left[i] > 0 {
+                                waiting[i] += 1;
+                                if waiting[i] > 2 * k {
+                                    fail!(
+                                        f,
+                                        format!("C06/{}/starvation", who),
+                                        "recv #{}: peer {} still has {} complete messages queued and has now been passed over by {} deliveries from other peers (bound 2n = {}; backlogs {:?})",
+                                        step,
+                                        i,
+                                        left[i],
+                                        waiting[i],
+                                        2 * k,
+                                        c.backlog
+                                    );
+                                    return f;
+                                }
+                            }
+                        }
+                        if kind == Kind::Rep {
+                            let a = sim.send(s, &[b"r".to_vec()]);
+                            let _ = sim.run(a).await;
+                        }
+                    }
+                    Ok(Some(Out::Recv(Err(_)))) => {}
+                    Ok(None) => {
+                        sim.cancel(r);
+                        break;
+                    }
+                    other => {
+                        fail!(f, format!("C06/{}/spin", who), "{:?}", other.map(|x| x.map(|_| ())));
+                        return f;
+                    }
+                }
+            }
+            if left.iter().any(|l| *l > 0) {
+                fail!(f, format!("C06/{}/lost-wakeup", who), "recv is pending although peers still have {:?} complete messages on the wire", left);
+            }
+            f
+        })
+    });
+    if let Some(f) = r {
+        o.failures = f;
+    }
+    for p in panics {
+        o.fail(format!("C06/panic/{}", panic_sig(&p)), p);
+    }
+    o
+}
 
 /// fairness-focused strings: several busy streams, receiver polling, joins in between
 fn gen_fair(src: &mut Src<'_>) -> SchedCase {
@@ -57,6 +184,42 @@ pub fn run(ctx: &Ctx) -> (Report, PropertyMeta) {
     report.merge(run_random(ctx, "schedule06", n / 2, 40..=200, |s| gen_sched(s, true), |c| sched_outcome(c, true)));
     report.sections.push(json!({"part": "random schedule strings (generic, fairness-focused, with stale wakes)", "cases": n * 2 + n / 2}));
 
+    // the same fairness bound observed through real sockets
+    {
+        use crate::sim::Kind;
+        let mut fc = vec![];
+        for kind in [Kind::Pull, Kind::Router, Kind::Dealer, Kind::Sub, Kind::XPub] {
+            for backlog in [vec![40usize, 1], vec![1, 40], vec![30, 30], vec![50, 2, 2], vec![2, 50, 2], vec![20, 20, 20, 1], vec![60, 1, 1, 1, 1]] {
+                for size in [0usize, 600] {
+                    for order in 0..4u32 {
+                        fc.push(FairSockCase { kind, backlog: backlog.clone(), size, order });
+                    }
+                }
+            }
+        }
+        let r = run_cases(ctx, "fair_socket", &fc, fair_sock_outcome);
+        report.exhaustive_parts.push(format!("real PULL/ROUTER/DEALER/SUB/XPUB sockets (sim) with 2..5 raw peers holding backlogs of 1..60 complete messages before the first recv, 2 message sizes, 4 arrival orders: {} cases", fc.len()));
+        report.merge(r);
+        let n = t.pick(3000, 60_000);
+        let r = run_random(
+            ctx,
+            "fair_socket",
+            n,
+            8..=24,
+            |s| {
+                let k = s.range(2, 5);
+                FairSockCase {
+                    kind: s.pick(&[Kind::Pull, Kind::Router, Kind::Dealer, Kind::Sub, Kind::XPub, Kind::Rep]),
+                    backlog: (0..k).map(|_| s.pick(&[1usize, 1, 2, 5, 20, 45])).collect(),
+                    size: s.pick(&[0usize, 3, 300, 9000]),
+                    order: s.next() as u32,
+                }
+            },
+            fair_sock_outcome,
+        );
+        report.sections.push(json!({"part": "random backlogs on real sockets", "cases": n}));
+        report.merge(r);
+    }
     if t == Tier::Thorough {
         crate::fuzzing::campaign(ctx, &mut report, "fq", 240);
     }
@@ -71,13 +234,14 @@ pub fn run(ctx: &Ctx) -> (Report, PropertyMeta) {
     let total = report.evaluations;
     health(&mut report, "wake-or-insert-inside-window", total, 50);
     health(&mut report, "two-busy-streams", total, 50);
+    health_abs(&mut report, "fairness-on-a-real-socket", 1000);
     health_abs(&mut report, "receiver-moved-to-another-task", 2000);
     let observed = report.measures.get("max_bypass_observed").copied().unwrap_or(0);
     report.notes.push(format!("largest number of other-stream deliveries that went ahead of a ready stream in the exhaustive part: {} (bound asserted: 2n)", observed));
 
     let meta = PropertyMeta {
         level: "exploration",
-        rule: "the library's real fair queue driven by schedule strings over {Push i, Burst i, Close i, Insert i, Remove i, Recv, Settle, Exhaust (streams yield), Migrate (the receiver is moved to another task: new waker, wakes to the old one reach nobody)}; tokens inside a stream poll run while the queue lock is released (before the stream decides and after it decided but before it is put back). ALL valid strings to the stated depth for 2 and 3 streams, proptest strings (generic, fairness-focused with several busy streams, and with stale wakes) for up to 6 streams. Oracles: (no lost wake-up) the receiver is re-polled only when an executor would (its waker fired since it last returned Pending); whenever it is parked with no wake pending - at every Settle token and after the schedule - no connected stream may hold an undelivered item; end-of-stream only with no streams and block_on_no_clients=false. (bounded bypass) from the moment a stream holds an item until it is served, at most 2n deliveries from other streams (n = streams ever inserted; bursts of 14 items make any monopolising order exceed the bound). Non-trivial = a wake or insert lands inside a window, or two streams each hold >= 2 items at some point; distinct by schedule".into(),
+        rule: "the library's real fair queue driven by schedule strings over {Push i, Burst i, Close i, Insert i, Remove i, Recv, Settle, Exhaust (streams yield), Migrate (the receiver is moved to another task: new waker, wakes to the old one reach nobody)}; tokens inside a stream poll run while the queue lock is released (before the stream decides and after it decided but before it is put back). ALL valid strings to the stated depth for 2 and 3 streams, proptest strings (generic, fairness-focused with several busy streams, and with stale wakes) for up to 6 streams. Oracles: (no lost wake-up) the receiver is re-polled only when an executor would (its waker fired since it last returned Pending); whenever it is parked with no wake pending - at every Settle token and after the schedule - no connected stream may hold an undelivered item; end-of-stream only with no streams and block_on_no_clients=false. (bounded bypass) from the moment a stream holds an item until it is served, at most 2n deliveries from other streams (n = streams ever inserted; bursts of 14 items make any monopolising order exceed the bound). The same bypass bound is observed through real sockets in the sim: PULL/ROUTER/DEALER/SUB/XPUB/REP with 2..5 raw peers whose backlogs of 1..60 complete messages are all on the wire before the first recv; every peer that still has messages queued is served within 2n deliveries, and recv never stays pending while messages remain. Non-trivial = a wake or insert lands inside a window, or two streams each hold >= 2 items at some point; distinct by schedule".into(),
         assumptions: vec![
             "a correct executor re-polls a task that was woken while running; waker registration once per poll call is therefore not flagged".into(),
             "fairness is not asserted on schedules containing stale wakes (an old waker clone legitimately re-queues its stream with an old ticket)".into(),
@@ -91,6 +255,7 @@ pub fn replay(_ctx: &Ctx, kind: &str, case: &Value) -> Vec<Failure> {
     match kind {
         "schedule06" | "schedule" => parse_case::<SchedCase>(case).map(|c| sched_outcome(&c, true).failures),
         "stress" => Ok(crate::stress::replay(_ctx, "C06", case)),
+        "fair_socket" => parse_case::<FairSockCase>(case).map(|c| fair_sock_outcome(&c).failures),
         "schedule_subtree" => {
             let first: Result<SchedCase, _> = parse_case(&case["first"]);
             first.map(|c| {
